@@ -145,6 +145,52 @@ def rebin_overlap(o):
     o.canary('canary: share is always 1', z3.Implies(z3.And(l < b, a < r), res['ab'].t == 1))
 
 
+@obligation('C14', 'rebin.n-bins-cover', functions=[HI + '_do_rebin_histogram'])
+def rebin_nbins(o):
+    """_do_rebin_histogram.<locals>.binning_of_n_bins(index, n): the binning generated for an integer bin count is interval_range(start, end, n) with start the
+    minimum over ALL left edges and end the maximum over ALL right edges (the order in which the classes are listed does not matter), so it covers the histogram"""
+    from pv.interp import LibNS, Builtin
+    mod = extract.load_module('pylife.utils.histogram')
+    outer = mod.find('_do_rebin_histogram')
+    inner = [n for n in outer.body if isinstance(n, ast.FunctionDef) and n.name == 'binning_of_n_bins']
+    if not inner:
+        raise Unbound('binning_of_n_bins not found')
+    o.functions.add((mod.name, '_do_rebin_histogram.<locals>.binning_of_n_bins'))
+    l, r = o.reals('left right')
+    nb = o.int('binnum')
+    o.assume(l < r, nb >= 1)
+    calls = []
+    pd0 = o.I.libs['pd']
+
+    class PdNS(LibNS):
+        def get(self_, attr):
+            if attr == 'interval_range':
+                return Builtin('interval_range', lambda *a, **k: (calls.append((a, k)), Rec({}, 'binning'))[1])
+            return pd0.get(attr)
+    o.I.libs['pd'] = o.I.libs['pandas'] = PdNS('pd', {})
+    outerf = Frame(o.I, mod, {}, None, 'pylife.utils.histogram::_do_rebin_histogram', node=outer)
+    f = Func(inner[0], mod, outerf, 'pylife.utils.histogram::_do_rebin_histogram.<locals>.binning_of_n_bins')
+    index = Rec({'left': SV(l, kind='series', index='hi'), 'right': SV(r, kind='series', index='hi')}, 'intervalindex', index='hi')
+    try:
+        o.run1(lambda: o.I.call(f, [index, SV(nb)]), label='binning_of_n_bins')
+    finally:
+        o.I.libs['pd'] = o.I.libs['pandas'] = pd0
+    o.shape('interval_range is called once with (start, end, n)', len(calls) == 1 and len(calls[0][0]) + len(calls[0][1]) == 3, calls and (len(calls[0][0]), sorted(calls[0][1])))
+    a, k = calls[0]
+    a = list(a) + [k[x] for x in ('start', 'end', 'periods')[len(a):]]
+    start, end, per = a[0], a[1], a[2]
+    reds = {v['value'].get_id(): v for v in o.I.reductions.values()}
+
+    def is_red(x, kind, term):
+        from pv.npmodel import lift
+        v = reds.get(lift(x).t.get_id())
+        return v is not None and v['kind'] == kind and v['mask'] is None and v['term'].eq(term)
+    o.prove('start is the minimum over the left edges of all classes', z3.BoolVal(is_red(start, 'min', l)))
+    o.prove('end is the maximum over the right edges of all classes', z3.BoolVal(is_red(end, 'max', r)))
+    from pv.npmodel import lift
+    o.prove('the number of classes is the requested one', lift(per).t == nb)
+
+
 # ---------------------------------------------------------------------------------------------
 def _collectives(ctx):
     import itertools
@@ -248,7 +294,7 @@ def b_rebin(ctx):
     warnings.simplefilter('ignore')
     pool = [[0, 1, 2, 3], [0, 0.5, 3], [0, 3], [0, 1.5, 3], [0, 0.1, 0.2, 3], [-1, 0, 4], [0, 1, 2.5, 3, 5], [0, 2.999, 3], [-2, 3.5], [0, 1, 3], [0, 0.75, 1.5, 2.25, 3], [0, 2, 3, 7]]
     counts_pool = [[1, 2, 3], [0, 5, 0], [10, 0, 1], [2.5, 2.5, 2.5]]
-    ctx.bound = "source binnings: the 3/2/1-class members of a pool of 12 gap-free irregular binnings with counts from 4 patterns; targets: every pool member covering the source; integer bin counts 1..4"
+    ctx.bound = "source binnings: the 3/2/1-class members of a pool of 12 gap-free irregular binnings with counts from 4 patterns; targets: every pool member covering the source; integer bin counts 1..4 with the source classes listed in order / reversed / rotated"
     ctx.rule = "non-trivial: target differs from the source; distinct by (source, counts, target)"
     ctx.exhaustive = True
     for sb in pool:
@@ -281,11 +327,19 @@ def b_rebin(ctx):
                 r2 = rebin_histogram(rebin_histogram(h, pd.IntervalIndex.from_breaks([float(x) for x in fine])), t)
                 if not np.allclose(r2.values, r.values, rtol=1e-9, atol=1e-12):
                     ctx.fail('C14:rebin-composition', f'rebinning {sb} -> {fine} -> {tb} differs from {sb} -> {tb}', {'source': sb, 'counts': c, 'target': tb})
+            # integer bin counts: the target is generated from the range the histogram covers, in whatever order its classes are listed (added after seed C14-c)
+            orders = {'listed': list(range(len(h))), 'reversed': list(range(len(h)))[::-1], 'rotated': list(range(1, len(h))) + [0]}
             for nb in (1, 2, 3, 4):
-                r = rebin_histogram(h, nb)
-                ctx.case(True, key=(tuple(sb), tuple(c), nb))
-                if abs(r.sum() - h.sum()) > 1e-9 * max(1, h.sum()):
-                    ctx.fail('C14:rebin-total', f'rebinning {sb} {c} to {nb} bins: total {h.sum()} -> {r.sum()}', {'source': sb, 'counts': c, 'bins': nb})
+                for oname, order in orders.items():
+                    if oname != 'listed' and len(h) == 1:
+                        continue
+                    hh = h.iloc[order]
+                    r = rebin_histogram(hh, nb)
+                    ctx.case(True, key=(tuple(sb), tuple(c), nb, oname))
+                    if abs(r.sum() - h.sum()) > 1e-9 * max(1, h.sum()):
+                        ctx.fail('C14:rebin-total', f'rebinning {sb} {c} (classes {oname}) to {nb} bins: total {h.sum()} -> {r.sum()}', {'source': sb, 'counts': c, 'bins': nb, 'order': order})
+                    if len(r) != nb or r.index.left.min() != float(sb[0]) or r.index.right.max() != float(sb[-1]):
+                        ctx.fail('C14:rebin-n-bins-range', f'rebinning {sb} (classes {oname}) to {nb} bins gives the binning {[(i.left, i.right) for i in r.index]}', {'source': sb, 'counts': c, 'bins': nb, 'order': order})
     if ctx.shard == 0:
         hs = [pd.Series([1.0, 2.0], index=pd.IntervalIndex.from_breaks([0.0, 1.0, 2.0], name='range')),
               pd.Series([4.0, 0.5], index=pd.IntervalIndex.from_breaks([1.0, 2.0, 3.0], name='range')),
